@@ -77,7 +77,7 @@ def run(mid, props):
     d = f"{SEEDED}/{mid}"
     meta = json.load(open(f"{d}/meta.json"))
     if not props:
-        props = [meta["breaks_property"]]
+        props = meta.get("run_against") or [meta["breaks_property"]]
     scratch = f"/tmp/mw/{mid}"
     shutil.rmtree(scratch, ignore_errors=True)
     os.makedirs(scratch + "/repo")
